@@ -573,7 +573,12 @@ Section Step2.
   Proof.
     intros Hst Hw. cbn [wfq] in Hw. apply andb_true_iff in Hw. destruct Hw as [Hv Hs]. cbn [simp].
     apply post_bind1; [apply IH; assumption|]. intros v' c1 Hv'.
-    apply post_bind1; [apply IH; assumption|]. intros s' c2 Hs'.
+    apply post_bind1; [apply IH; assumption|]. intros s0 c2 Hs0.
+    assert (Hs' : wfq (norm_index s0) = true).
+    { destruct s0 as [ | | | | |o a| | | | | | | | | | | | | ]; try exact Hs0.
+      destruct o; try exact Hs0. destruct a; try exact Hs0.
+      match goal with |- context[Const ?k] => destruct k end; try exact Hs0; reflexivity. }
+    cbv zeta. generalize dependent (norm_index s0). intros s' Hs'.
     assert (Hdef : post (if is_call_of v' "First"
                          then match v' with
                               | Call _ (first :: _) _ _ =>
